@@ -244,6 +244,10 @@ type ClientCase struct {
 	Path    string `json:"path"`
 	Verdict int    `json:"verdict"` // 0, -1, -99 (close)
 	Peer    string `json:"peer,omitempty"` // address of the server as the client's connection sees it ("" = 127.0.0.1)
+	// Recorded: the stream carries a recorded peer address (SetPeerAddr: what the caller asked to reach - a
+	// forwarder, a shared-port or broker address) that differs from the endpoint the connection really has;
+	// address-qualified names must name the REAL endpoint
+	Recorded string `json:"recorded,omitempty"`
 }
 
 var peerChoices = []string{"", "::1", "2001:db8::7", "10.1.2.3"}
@@ -311,7 +315,11 @@ func runClientOnce(c ClientCase) (string, string) {
 	go func() { defer wg.Done(); plog, _ = kit.ScriptedServer(sc, o, 2*time.Second) }()
 	cfg := kit.BaseConfig(security.SecurityRequired, security.SecurityOptional, security.AuthFS)
 	ctx, cancel := context.WithTimeout(context.Background(), 3*time.Second)
-	_, herr := security.NewAuthenticator(cfg, stream.NewStream(cc)).ClientHandshake(ctx)
+	cst := stream.NewStream(cc)
+	if c.Recorded != "" {
+		cst.SetPeerAddr("<" + net.JoinHostPort(c.Recorded, "9618") + ">")
+	}
+	_, herr := security.NewAuthenticator(cfg, cst).ClientHandshake(ctx)
 	cancel()
 	_ = cc.Close()
 	wg.Wait()
@@ -519,6 +527,25 @@ func TestC18ClientGrammar(t *testing.T) {
 				bad++
 				kit.Violation("C18", v, map[string]any{"side": "client", "case": c})
 				t.Errorf("C18 violated: %s (path %q, peer %s, class %s)", v, c.Path, peer, class)
+			}
+		}
+	}
+	// a recorded peer address that is not the connection's endpoint: leafs naming the recorded address must be
+	// refused, leafs naming the real endpoint honoured as ever
+	for _, rec := range []string{"127.0.0.2", "10.9.9.9", "::1"} {
+		for _, named := range []string{rec, "127.0.0.1"} {
+			peerIP = named
+			ls := leafs()
+			peerIP = "127.0.0.1"
+			for li, l := range ls {
+				c := ClientCase{Path: "/tmp/" + l, Verdict: []int{0, -1, -99}[li%3], Recorded: rec}
+				v, class := runClient(c)
+				ev.Case("client:"+class+"/recorded="+rec, rec+named+c.Path)
+				if v != "" && bad < 5 {
+					bad++
+					kit.Violation("C18", v, map[string]any{"side": "client", "case": c})
+					t.Errorf("C18 violated: %s (path %q, recorded peer %s, class %s)", v, c.Path, rec, class)
+				}
 			}
 		}
 	}
